@@ -13,6 +13,7 @@ and the CTR wrapper are covered by the oracle only.
 import SkinnyVerif.Properties.C04
 import SkinnyVerif.Properties.C01
 import SkinnyVerif.Lemmas.Arduino128
+import SkinnyVerif.Lemmas.Arduino64
 
 namespace SkinnyVerif.Properties
 open SkinnyVerif SkinnyVerif.Gen SkinnyVerif.Spec.Skinny SkinnyVerif.Impl SkinnyVerif.Lemmas
@@ -237,5 +238,234 @@ theorem C19_tweaked128 (tk0 : TweakedKey 64) (hlen : 56 ≤ tk0.ks.sched.length)
     ecbEncrypt opsArd128 p128 tk.ks blk = encryptTweaked128 (padRight (if size = 16 then 16 else 32) (key.take size)) (lastTweak 16 hist) blk ∧
     ecbDecrypt opsArd128 p128 tk.ks blk = decryptTweaked128 (padRight (if size = 16 then 16 else 32) (key.take size)) (lastTweak 16 hist) blk :=
   (C04_skinny128_ops opsArd128 opsArdG128 tk0 hlen key size (by omega) (by omega) hkey j2 j3 hist hv blk).2
+
+
+/-! ## Skinny-64: C01 and C04 for an arbitrary correct table of pieces, and the Arduino table -/
+
+/-- SKINNY-64, all three key sizes, every configuration, both directions -/
+theorem C01_skinny64_ops (o : SkinnyOps 64 32) (hc : OpsCorrectG abs64 o) (ks0 : KeySched 32) (hlen : 40 ≤ ks0.sched.length) (key blk : Bytes)
+    (hk : key.length = 8 ∨ key.length = 16 ∨ key.length = 24) (j2 j3 : BitVec 64) :
+    (setKey o guards64 p64 ks0 (some key) key.length j2 j3).1 = 1 ∧
+    ecbEncrypt o p64 (setKey o guards64 p64 ks0 (some key) key.length j2 j3).2 blk = encrypt64 key blk ∧
+    ecbDecrypt o p64 (setKey o guards64 p64 ks0 (some key) key.length j2 j3).2 blk = decrypt64 key blk := by
+  have hg : guards64.setKey false (some key).isNone (BitVec.ofNat 32 key.length) = false := by
+    rw [guard64_setKey _ _ (by omega)]; rcases hk with h | h | h <;> simp [h]
+  simp only [setKey, hg, Bool.false_eq_true, if_false]
+  have hks := setKeyInner_plain abs64 o hc absOK64 p64 (by decide) ks0 key key.length j2 j3
+    (by simp [p64]; omega) (by simp [p64]; omega) (by decide) (by simp [p64]; omega) (by simp [p64]; omega) (by simp [p64]; omega)
+  obtain ⟨hkeyed, hrounds, _⟩ := hks
+  rw [List.take_length] at hkeyed
+  have hr : (setKeyInner o p64 ks0 key key.length none j2 j3).rounds = rounds64 (key.length / 8) := by
+    rw [hrounds]
+    rcases hk with h | h | h <;> simp [h, p64, rounds64]
+  refine ⟨by trivial, ?_, ?_⟩
+  · rw [ecbEncrypt_eq, encrypt64, show p64.bs = 8 from rfl, ← bytesOfCells4_cells4]
+    congr 1
+    have := encrypt_refines abs64 o hc _ _ _ hkeyed (image 64 blk)
+    simp only [abs64] at this
+    rw [this, hr, tweakey64_eq, cellsOfBytes4_eq]
+    rfl
+  · rw [ecbDecrypt_eq, decrypt64, show p64.bs = 8 from rfl, ← bytesOfCells4_cells4]
+    congr 1
+    have := decrypt_refines abs64 o hc _ _ _ hkeyed (image 64 blk)
+    simp only [abs64] at this
+    rw [this, hr, tweakey64_eq, cellsOfBytes4_eq]
+    rfl
+
+/-- non-vacuity: the hypotheses are met by the paper's SKINNY-128-384 vector and a zeroed schedule -/
+example : (56 ≤ (List.replicate 56 (0 : BitVec 64)).length) ∧ ((List.replicate 48 (7 : UInt8)).length = 16 ∨ (List.replicate 48 (7 : UInt8)).length = 32 ∨ (List.replicate 48 (7 : UInt8)).length = 48) := by
+  simp
+
+
+def applyTweaks64_ops (o : SkinnyOps 64 32) (hc : OpsCorrectG abs64 o) (tk : TweakedKey 32) (hist : List TweakArg) : TweakedKey 32 :=
+  hist.foldl (fun tk a => (setTweak o guards64 p64 tk a.1 a.2).2) tk
+
+/-- invariant carried through the history -/
+def TInv64_ops (tk : TweakedKey 32) (T : Bytes) (c2 c3 : Cells 4) (r : Nat) : Prop :=
+  TopsFor abs64 tk.ks ⟨cells4 (image 64 T), c2, c3⟩ 2 ∧ tk.tweak = T ∧ tk.ks.rounds = r ∧ r ≤ tk.ks.sched.length
+
+theorem setTweak64_inv_ops (o : SkinnyOps 64 32) (hc : OpsCorrectG abs64 o) (tk : TweakedKey 32) (T : Bytes) (c2 c3 : Cells 4) (r : Nat) (a : TweakArg)
+    (hv : validTweak 8 a) (hinv : TInv64_ops tk T c2 c3 r) :
+    (setTweak o guards64 p64 tk a.1 a.2).1 = 1 ∧
+    TInv64_ops (setTweak o guards64 p64 tk a.1 a.2).2 (effTweak 8 a) c2 c3 r := by
+  obtain ⟨htops, htw, hr, hlen⟩ := hinv
+  have hg : guards64.setTweak false a.1.isNone (BitVec.ofNat 32 a.2) = false := by
+    rw [guard64_setTweak _ _ (by have := hv.2; omega)]
+    have := hv.1; have := hv.2
+    simp; omega
+  have hx := xorTk1_twice abs64 o hc tk.ks tk.tweak (effTweak 8 a) c2 c3 2 (by rw [hr]; exact hlen)
+    (by rw [htw]; exact htops)
+  obtain ⟨h1, h2, h3⟩ := hx
+  have he : tweakBytes p64.bs a.1 a.2 = effTweak 8 a := rfl
+  simp only [setTweak, hg, Bool.false_eq_true, if_false, he]
+  exact ⟨by trivial, h1, rfl, by rw [h2, hr], by rw [h3]; exact hlen⟩
+
+theorem applyTweaks64_inv_ops (o : SkinnyOps 64 32) (hc : OpsCorrectG abs64 o) (hist : List TweakArg) (tk : TweakedKey 32) (T : Bytes) (c2 c3 : Cells 4) (r : Nat)
+    (hv : ∀ a ∈ hist, validTweak 8 a) (hinv : TInv64_ops tk T c2 c3 r) :
+    TInv64_ops (applyTweaks64_ops o hc tk hist) (match hist.getLast? with | none => T | some a => effTweak 8 a) c2 c3 r := by
+  induction hist generalizing tk T with
+  | nil => simpa [applyTweaks64_ops] using hinv
+  | cons a rest ih =>
+    have h1 := (setTweak64_inv_ops o hc tk T c2 c3 r a (hv a (by simp)) hinv).2
+    have h2 := ih (setTweak o guards64 p64 tk a.1 a.2).2 (effTweak 8 a) (fun x hx => hv x (by simp [hx])) h1
+    simp only [applyTweaks64_ops, List.foldl_cons] at h2 ⊢
+    cases hrest : rest.getLast? with
+    | none =>
+      have : rest = [] := by simpa using hrest
+      subst this
+      simpa using h1
+    | some x =>
+      have hl : (a :: rest).getLast? = some x := by
+        cases rest with
+        | nil => simp at hrest
+        | cons y ys => simpa [List.getLast?_cons_cons] using hrest
+      rw [hrest] at h2
+      rw [hl]
+      exact h2
+
+/-- SKINNY-64 tweakable schedules: any key length 16..32, any history of valid tweak changes -/
+theorem C04_skinny64_ops (o : SkinnyOps 64 32) (hc : OpsCorrectG abs64 o) (tk0 : TweakedKey 32) (hlen : 40 ≤ tk0.ks.sched.length) (key : Bytes) (size : Nat)
+    (hs1 : 8 ≤ size) (hs2 : size ≤ 16) (hkey : size ≤ key.length) (j2 j3 : BitVec 64)
+    (hist : List TweakArg) (hv : ∀ a ∈ hist, validTweak 8 a) (blk : Bytes) :
+    let r := setTweakedKey o guards64 p64 tk0 (some key) size j2 j3
+    let tk := applyTweaks64_ops o hc r.2 hist
+    let K := padRight (if size = 8 then 8 else 16) (key.take size)
+    r.1 = 1 ∧
+    ecbEncrypt o p64 tk.ks blk = encryptTweaked64 K (lastTweak 8 hist) blk ∧
+    ecbDecrypt o p64 tk.ks blk = decryptTweaked64 K (lastTweak 8 hist) blk := by
+  intro r tk K
+  have hg : guards64.setTweakedKey false (some key).isNone (BitVec.ofNat 32 size) = false := by
+    rw [guard64_setTweakedKey _ _ (by omega)]; simp; omega
+  have hr : r = (1, { ks := setKeyInner o p64 tk0.ks key size (some (zeros 8)) j2 j3, tweak := zeros 8 }) := by
+    simp only [r, setTweakedKey, hg, Bool.false_eq_true, if_false, p64]
+  have hks := setKeyInner_tweaked abs64 o hc absOK64 p64 (by decide) tk0.ks key (zeros 8) size j2 j3
+    (by simp [p64]; omega) (by simp [p64]; omega) (by decide) (by simp [p64]; omega) (by simp [p64]; omega)
+  obtain ⟨htops, hrounds, hl⟩ := hks
+  have hinv0 : TInv64_ops r.2 (zeros 8) (cells4 (image 64 (key.take size))) (cells4 (image 64 ((key.take size).drop 8)))
+      (if size = p64.bs then p64.r2 else p64.r3) := by
+    rw [hr]
+    refine ⟨htops, rfl, hrounds, ?_⟩
+    show (if size = p64.bs then p64.r2 else p64.r3) ≤ (setKeyInner o p64 tk0.ks key size (some (zeros 8)) j2 j3).sched.length
+    rw [hl]; simp only [p64]
+    by_cases h16 : size = 8 <;> simp [h16] <;> omega
+  have hinv := applyTweaks64_inv_ops o hc hist r.2 (zeros 8) _ _ _ hv hinv0
+  have hT : (match hist.getLast? with | none => zeros 8 | some a => effTweak 8 a) = lastTweak 8 hist := by
+    rfl
+  rw [hT] at hinv
+  obtain ⟨htops', _, hr', _⟩ := hinv
+  have hkeyed := TopsFor.keyed abs64 o hc absOK64 htops'
+  -- the specification's tweakey for (tweak ++ padded key)
+  have hTlen : (lastTweak 8 hist).length = 8 := by
+    simp only [lastTweak]
+    split
+    · simp [zeros]
+    · rename_i a _
+      simp only [effTweak, tweakBytes]; split <;> simp [zeros, padRight]
+  have hKlen : (key.take size).length = size := by simp; omega
+  have hK : K = key.take size ++ zeros ((if size = 8 then 8 else 16) - size) := by
+    simp only [K]; rw [padRight_eq _ _ (by rw [hKlen]; split <;> omega), hKlen]
+  have htk : tweakey64 (lastTweak 8 hist ++ K) =
+      ⟨cells4 (image 64 (lastTweak 8 hist)), cells4 (image 64 (key.take size)), cells4 (image 64 ((key.take size).drop 8))⟩ := by
+    rw [tweakey64_eq]
+    simp only [implTweakey, abs64]
+    have e1 : image 64 (lastTweak 8 hist ++ K) = image 64 (lastTweak 8 hist) := by
+      rw [← image_take 64 _ 8 (by decide), List.take_append_of_le_length (by omega), List.take_of_length_le (by omega)]
+    have e2 : (lastTweak 8 hist ++ K).drop 8 = K := by
+      rw [List.drop_append_of_le_length (by omega), List.drop_of_length_le (by omega), List.nil_append]
+    have e3 : (lastTweak 8 hist ++ K).drop (2 * 8) = K.drop 8 := by
+      rw [show 2 * 8 = 8 + 8 from rfl, ← List.drop_drop, e2]
+    rw [e1, e2, e3, hK, image_append_zeros]
+    have e4 : image 64 ((key.take size ++ zeros ((if size = 8 then 8 else 16) - size)).drop 8) = image 64 ((key.take size).drop 8) := by
+      rw [List.drop_append_of_le_length (by omega), image_append_zeros]
+    rw [e4]
+  have hKl : K.length = if size = 8 then 8 else 16 := by simp [K, padRight, zeros]
+  have hrr : tk.ks.rounds = rounds64 (K.length / 8 + 1) := by
+    rw [hr', hKl]; simp only [p64]
+    by_cases h16 : size = 8
+    · simp [h16, rounds64]
+    · simp [h16, rounds64]
+  refine ⟨by rw [hr], ?_, ?_⟩
+  · rw [ecbEncrypt_eq, encryptTweaked64, show p64.bs = 8 from rfl, ← bytesOfCells4_cells4]
+    congr 1
+    have := encrypt_refines abs64 o hc _ _ _ hkeyed (image 64 blk)
+    simp only [abs64] at this
+    rw [this, hrr, htk, cellsOfBytes4_eq]
+  · rw [ecbDecrypt_eq, decryptTweaked64, show p64.bs = 8 from rfl, ← bytesOfCells4_cells4]
+    congr 1
+    have := decrypt_refines abs64 o hc _ _ _ hkeyed (image 64 blk)
+    simp only [abs64] at this
+    rw [this, hrr, htk, cellsOfBytes4_eq]
+
+/-- non-vacuity: a history with a short tweak, a null tweak and a full tweak is valid -/
+example : ∀ a ∈ ([(some [1, 2, 3], 3), (none, 16), (some (List.replicate 16 9), 16)] : List TweakArg), validTweak 16 a := by
+  intro a ha
+  simp at ha
+  rcases ha with h | h | h <;> subst h <;> simp [validTweak]
+
+
+def opsArd64 : SkinnyOps 64 32 :=
+  { encLoad := ard64_enc_load, encRound := ard64_enc_round, encStore := ard64_enc_store,
+    decLoad := ard64_dec_load, decRound := ard64_dec_round, decStore := ard64_dec_store,
+    tk1Load := ard64_tk1_load, tk1Step0 := ard64_tk1_step_t0, tk1Step1 := ard64_tk1_step_t1,
+    xorTk1Load := ard64_xor_tk1_load, xorTk1Step := ard64_xor_tk1_step,
+    tk2Load := fun k _ key => ard64_tk2_load key &&& BitVec.ofNat 64 (2 ^ (8 * k) - 1), tk2Step := ard64_tk2_step,
+    tk3Load := fun k _ key => ard64_tk3_load key &&& BitVec.ofNat 64 (2 ^ (8 * k) - 1), tk3Step := ard64_tk3_step,
+    loadUsesJunk := false }
+
+set_option maxRecDepth 8000 in
+theorem ard64_tk_loads (key : BitVec 64) :
+    ard64_tk1_load key = (key, 0) ∧ ard64_xor_tk1_load key = key ∧ ard64_tk2_load key = key ∧ ard64_tk3_load key = key := by
+  refine ⟨Prod.ext ?_ ?_, ?_, ?_, ?_⟩
+  · bv_bits 64 <;> simp [gen_unfold]
+  · rfl
+  · bv_bits 64 <;> simp [gen_unfold]
+  · bv_bits 64 <;> simp [gen_unfold]
+  · bv_bits 64 <;> simp [gen_unfold]
+
+theorem opsArd64_correct : Ops64Correct opsArd64 := by
+  have C := ops64Correct .c32le
+  have L := ard64_tk_loads
+  constructor
+  · intro x; exact ard64_enc_load_eq x
+  · intro x; exact ard64_enc_store_eq x
+  · intro x; exact ard64_dec_load_eq x
+  · intro x; exact ard64_dec_store_eq x
+  · intro st sk; show cells4 (ard64_enc_round st sk) = _; rw [ard64_enc_round_eq]; exact C.encRound st sk
+  · intro st sk; show cells4 (ard64_dec_round st sk) = _; rw [ard64_dec_round_eq]; exact C.decRound st sk
+  · intro k; exact (L k).1
+  · intro tk rc; show top4 (ard64_tk1_step_t0 tk rc).1 = _; rw [ard64_tk1_step_t0_eq]; exact C.tk1Step0_e tk rc
+  · intro tk rc; show cells4 (ard64_tk1_step_t0 tk rc).2.1 = _; rw [ard64_tk1_step_t0_eq]; exact C.tk1Step0_tk tk rc
+  · intro tk rc; show (ard64_tk1_step_t0 tk rc).2.2 = _; rw [ard64_tk1_step_t0_eq]; exact C.tk1Step0_rc tk rc
+  · intro tk rc; show top4 (ard64_tk1_step_t1 tk rc).1 = _; rw [ard64_tk1_step_t1_eq]; exact C.tk1Step1_e tk rc
+  · intro tk rc; show cells4 (ard64_tk1_step_t1 tk rc).2.1 = _; rw [ard64_tk1_step_t1_eq]; exact C.tk1Step1_tk tk rc
+  · intro tk rc; show (ard64_tk1_step_t1 tk rc).2.2 = _; rw [ard64_tk1_step_t1_eq]; exact C.tk1Step1_rc tk rc
+  · intro k; exact (L k).2.1
+  · intro e tk; show top4 (ard64_xor_tk1_step e tk).1 = _; rw [ard64_xor_tk1_step_eq]; exact C.xorTk1Step_e e tk
+  · intro e tk; show cells4 (ard64_xor_tk1_step e tk).2 = _; rw [ard64_xor_tk1_step_eq]; exact C.xorTk1Step_tk e tk
+  · intro e tk; show top4 (ard64_tk2_step e tk).1 = _; rw [ard64_tk2_step_eq]; exact C.tk2Step_e e tk
+  · intro e tk; show cells4 (ard64_tk2_step e tk).2 = _; rw [ard64_tk2_step_eq]; exact C.tk2Step_tk e tk
+  · intro e tk; show top4 (ard64_tk3_step e tk).1 = _; rw [ard64_tk3_step_eq]; exact C.tk3Step_e e tk
+  · intro e tk; show cells4 (ard64_tk3_step e tk).2 = _; rw [ard64_tk3_step_eq]; exact C.tk3Step_tk e tk
+  · intro k junk key _ _; show ard64_tk2_load key &&& _ = _; rw [(L key).2.2.1]
+  · intro k junk key _ _; show ard64_tk3_load key &&& _ = _; rw [(L key).2.2.2]
+
+theorem opsArdG64 : OpsCorrectG abs64 opsArd64 := OpsCorrectG.of64 opsArd64_correct
+
+/-- **C19, Skinny64_64 / _128 / _192** -/
+theorem C19_skinny64 (ks0 : KeySched 32) (hlen : 40 ≤ ks0.sched.length) (key blk : Bytes)
+    (hk : key.length = 8 ∨ key.length = 16 ∨ key.length = 24) (j2 j3 : BitVec 64) :
+    ecbEncrypt opsArd64 p64 (setKey opsArd64 guards64 p64 ks0 (some key) key.length j2 j3).2 blk = encrypt64 key blk ∧
+    ecbDecrypt opsArd64 p64 (setKey opsArd64 guards64 p64 ks0 (some key) key.length j2 j3).2 blk = decrypt64 key blk :=
+  (C01_skinny64_ops opsArd64 opsArdG64 ks0 hlen key blk hk j2 j3).2
+
+/-- **C19, Skinny64_128_Tweaked / _192_Tweaked** -/
+theorem C19_tweaked64 (tk0 : TweakedKey 32) (hlen : 40 ≤ tk0.ks.sched.length) (key : Bytes) (size : Nat)
+    (hs : size = 8 ∨ size = 16) (hkey : size ≤ key.length) (j2 j3 : BitVec 64)
+    (hist : List TweakArg) (hv : ∀ a ∈ hist, validTweak 8 a) (blk : Bytes) :
+    let r := setTweakedKey opsArd64 guards64 p64 tk0 (some key) size j2 j3
+    let tk := applyTweaks64_ops opsArd64 opsArdG64 r.2 hist
+    ecbEncrypt opsArd64 p64 tk.ks blk = encryptTweaked64 (padRight (if size = 8 then 8 else 16) (key.take size)) (lastTweak 8 hist) blk ∧
+    ecbDecrypt opsArd64 p64 tk.ks blk = decryptTweaked64 (padRight (if size = 8 then 8 else 16) (key.take size)) (lastTweak 8 hist) blk :=
+  (C04_skinny64_ops opsArd64 opsArdG64 tk0 hlen key size (by omega) (by omega) hkey j2 j3 hist hv blk).2
 
 end SkinnyVerif.Properties
